@@ -33,6 +33,7 @@ func Now() Time {
 	if !vrt.On() {
 		return time.Now()
 	}
+	vrt.Note(uint64(vrt.NowNanos()))
 	return Base.Add(Duration(vrt.NowNanos()))
 }
 func Since(t Time) Duration                    { return Now().Sub(t) }
